@@ -5,6 +5,7 @@
 //!   wsharness gen <family> <tier> <seed> generate cases of a family and run them
 
 mod endpoint;
+mod fsock;
 mod gen;
 mod genhs;
 mod hs;
@@ -164,6 +165,7 @@ fn run_block(lines: &[String], out: &mut String) {
     match fam.as_str() {
         "hs-server" | "hs-client" => hs::run_case(lines, out),
         "twoparty" => twoparty::run_case(lines, out),
+        "framesocket" => fsock::run_case(lines, out),
         _ => endpoint::run_case(lines, out),
     }
 }
@@ -235,6 +237,14 @@ fn main() {
                 for i in 0..count {
                     let mut r = rng.fork();
                     let c = gen::gen_endpoint(&mut r, prof, i);
+                    let mut out = String::new();
+                    run_block(&c, &mut out);
+                    so.write_all(out.as_bytes()).unwrap();
+                }
+            } else if fam == "fs" {
+                for i in 0..count {
+                    let mut r = rng.fork();
+                    let c = fsock::gen_case(&mut r, i);
                     let mut out = String::new();
                     run_block(&c, &mut out);
                     so.write_all(out.as_bytes()).unwrap();
